@@ -246,6 +246,32 @@ def r17_2(chk, mod, data, params):
             _columns(chk, mod, dname, meaning, kterm, vterm, node, colname, params, data, keys)
             continue
         node = _dict_comp(mod, dname)
+        g0 = node.generators[0] if node.generators else None
+        direct = bool(g0 and isinstance(g0.iter, ast.Call) and isinstance(g0.iter.func, ast.Name) and g0.iter.func.id == "enumerate")
+        if not direct:
+            # the dictionary is built from an intermediate module-level table (records with the atomic number prepended, ...): the
+            # finite table is evaluated concretely (sa/miniinterp.py, nothing of the repository is run) and compared entry by entry
+            from ..miniinterp import Interp, NotConcrete
+            it_ = Interp(mod.tree)
+            it_.MAX_STEPS = 400000
+            try:
+                val = it_.global_value(dname)
+            except NotConcrete as ex_:
+                raise AnalysisError(f"{dname}: not a dict comprehension over enumerate(_ELEMENT_DATA, start=1) and not evaluable: {ex_}")
+            if not isinstance(val, dict):
+                raise AnalysisError(f"{dname}: not a dict comprehension over enumerate(_ELEMENT_DATA, start=1) and not evaluable")
+            kc_ = [c for c, m_ in colname.items() if m_ == meaning][0]
+            want = {tuple(row)[kc_]: (i + 1,) + tuple(row) for i, row in enumerate(data)}
+            got = {k: (tuple(v) if isinstance(v, (tuple, list)) else v) for k, v in val.items()}
+            bad = [k for k in want if got.get(k) != want[k]] + [k for k in got if k not in want]
+            chk.ob("R17.2", MOD, dname, f"{dname} enumerates _ELEMENT_DATA starting at 1", not bad and all(v[0] == i + 1 for i, v in enumerate(want.values())),
+                   node=node, expected="enumerate(_ELEMENT_DATA, start=1)", found=f"evaluated: {len(got)} entries, first mismatch {bad[:1]}")
+            chk.ob("R17.2", MOD, dname, f"{dname} is keyed by the {meaning} column", set(got) == set(want), node=node, expected=meaning,
+                   found=sorted(set(got) ^ set(want))[:3])
+            chk.ob("R17.2", MOD, dname, f"{dname} values are (Z, name, symbol, cov, vdw, mass) in constructor order", not bad, node=node,
+                   found=f"first mismatch {bad[:1]}")
+            keys[dname] = [tuple(row)[kc_] for row in data]
+            continue
         ev = Ev([ast.Expr(node)], mod.ctx)
         term = ev.ev(node).as_atom()
         # ('comp','DictComp', key, value, gens)
@@ -591,6 +617,21 @@ def r17_4(chk, mod, data, params):
                     ok = bool(row and row[0] == "sub" and row[1].key() == "_ELEMENT_DATA"
                               and (row[2][0] + 1).key() == args[0].key())
                     what = "Element(n, *_ELEMENT_DATA[n - 1]) uses the same n for the number and the row"
+                elif not args or len(args) <= 1:
+                    # the same constructor call with every column named: Element(atomic_number=n, name=ROW[0], symbol=ROW[1], ...)
+                    kw_ = dict(a[3]) if len(a) > 3 and a[3] else {}
+                    init_ = mod.funcs.get("Element.__init__")
+                    pnames = [x.arg for x in init_.args.args][1:] if init_ is not None else []
+                    if args:
+                        kw_.setdefault(pnames[0] if pnames else "atomic_number", args[0])
+                    if pnames and set(kw_) == set(pnames):
+                        num = kw_[pnames[0]]
+                        ok = True
+                        for c_, pn in enumerate(pnames[1:]):
+                            ra = kw_[pn].as_atom()
+                            rb = ra[1].as_atom() if ra and ra[0] == "sub" and len(ra[2]) == 1 and ra[2][0] == P.const(c_) else None
+                            ok = ok and bool(rb and rb[0] == "sub" and rb[1].key() == "_ELEMENT_DATA" and len(rb[2]) == 1 and (rb[2][0] + 1).key() == num.key())
+                        what = "Element(atomic_number=n, name=ROW[0], ...) with ROW = _ELEMENT_DATA[n - 1]: same n, every column under its own parameter"
             chk.ob("R17.4", MOD, q, what, ok, node=e.node, fingerprint=f"return:{cn}:{what}", found=str(e.value))
     # a miss in the last stage raises: from_label raises when the symbol is unknown
     ev = mod.ev("Element.from_label")
@@ -829,6 +870,29 @@ def r17_7(chk, mod, params, nrows=103):
             cond = a[1].as_atom()
             if cond and cond[0] in ("lt", "le"):
                 thresholds.append((cond, a))
+    # the same decision as a statement: `if c > 1: blocks.append(f"{el}{digits}") else: blocks.append(f"{el}")` -- read as the conditional
+    # expression it stands for (shown = the count piece of the first block, nothing in the second)
+    if not thresholds:
+        apps = [e for e in ev.events if e.kind == "call" and e.target is not None and e.target.key().endswith(".append") and e.loops and e.guards
+                and e.extra.get("args") and (e.guards[-1][0].as_atom() or ("",))[0] in ("lt", "le")]
+        by = {}
+        for e in apps:
+            by.setdefault(e.guards[-1][0].key(), {})[e.guards[-1][1]] = e
+        for ck, pair in by.items():
+            if set(pair) != {True, False}:
+                continue
+            def pieces(e):
+                fa = e.extra["args"][0].as_atom()
+                return [p_ for p_ in fa[1]] if fa and fa[0] == "fstr" else None
+            pt, pf = pieces(pair[True]), pieces(pair[False])
+            if pt is None or pf is None or len(pt) != len(pf) + 1 or [str(x) for x in pt[:len(pf)]] != [str(x) for x in pf]:
+                continue
+            last = pt[-1].as_atom() if hasattr(pt[-1], "as_atom") else pt[-1]
+            shown_ = last[1] if last and last[0] == "fmt" else None
+            if shown_ is None:
+                continue
+            cond_ = pair[True].guards[-1][0].as_atom()
+            thresholds.append((cond_, ("ite", pair[True].guards[-1][0], shown_, P.atom(("str", "")))))
     okn = 0
     for cond, a in thresholds:
         # 1 < c  with the else-branch the empty string
